@@ -72,12 +72,12 @@ Definition eval_const_op (op : string) (w : Z) (vs : list Z) : res Z :=
   | ONot, a :: _ => if mymaxuint_ok w then Ok (Z.lxor a (2 ^ w - 1)) else Err EKeyError
   | ORol, a :: c :: _ =>
       if mymaxuint_ok w then
-        let r := (Z.land c 31) mod w in
+        let r := c mod w   (* fix 64-bit rotates: count modulo the size *) in
         Ok (Z.lor (Z.land (Z.shiftl a r) (2 ^ w - 1)) (Z.shiftr (Z.land a (2 ^ w - 1)) (w - r)))
       else Err EKeyError
   | ORor, a :: c :: _ =>
       if mymaxuint_ok w then
-        let r := (Z.land c 31) mod w in
+        let r := c mod w in
         Ok (Z.lor (Z.shiftr (Z.land a (2 ^ w - 1)) r) (Z.land (Z.shiftl a (w - r)) (2 ^ w - 1)))
       else Err EKeyError
   | OShl, a :: c :: _ => if mymaxuint_ok w then Ok (Z.shiftl (Z.land a (2 ^ w - 1)) (Z.min c (w + 64))) else Err EKeyError
